@@ -198,23 +198,38 @@ class Hpm(object):
         return UpgradeStatus(self.send_message_with_name('GetUpgradeStatus'))
 
     def wait_for_long_duration_command(self, expected_cmd, timeout, interval):
+        """Poll the upgrade status until the long duration command has ended.
 
+        Raises HpmError if the command ended with a completion code other
+        than OK or is still reported as in progress when the timeout expires.
+        """
         start_time = time.time()
+        last_cc = CC_LONG_DURATION_CMD_IN_PROGRESS
         while time.time() < start_time + timeout:
             try:
                 status = self.get_upgrade_status()
                 if status.command_in_progress is not expected_cmd \
                         and status.command_in_progress != 0x34:
                     pass
-                if status.last_completion_code \
-                        == CC_LONG_DURATION_CMD_IN_PROGRESS:
+                last_cc = status.last_completion_code
+                if last_cc == CC_LONG_DURATION_CMD_IN_PROGRESS:
                     time.sleep(interval)
+                elif last_cc != constants.CC_OK:
+                    raise HpmError('long duration command 0x%02x CC=0x%02x'
+                                   % (expected_cmd, last_cc))
                 else:
                     return
             except IpmiTimeoutError:
+                # no answer (e.g. the controller is in reset)
+                last_cc = None
                 time.sleep(interval)
             except IOError:
+                last_cc = None
                 time.sleep(interval)
+
+        if last_cc is not None:
+            raise HpmError('long duration command 0x%02x still in progress '
+                           'after %ss' % (expected_cmd, timeout))
 
     def activate_firmware(self, rollback_override=None):
         req = create_request_by_name('ActivateFirmware')
